@@ -228,6 +228,7 @@ def run(module, cfg=None, workdir=None, workers=16, env=None, simulate=None, dep
     if dfs:
         java.append('-Dtlc2.tool.queue.IStateQueue=StateDeque')
     java.append('-DTLA-Library=' + SPEC_DIR + os.pathsep + MODEL_DIR)
+    java.append('-Djava.io.tmpdir=' + meta)          # TLC's own tlc-* scratch directories go away with the metadir
     java += ['-cp', JAR + os.pathsep + DEPS, 'tlc2.TLC']
     cmd = java + ['-metadir', meta, '-noGenerateSpecTE', '-workers', str(workers), '-config', cfgp]
     if simulate:
